@@ -7,7 +7,7 @@ import itertools
 from ..final import check_execute
 from ..kernel import Chooser
 from ..lazy import seq
-from ..seqcheck import explore_task, nest_tasks
+from ..seqcheck import explore_task, nest_tasks, run_world
 from ..tracelib import split_calls
 
 PID = "C11"
@@ -26,7 +26,7 @@ META = {
              "(strategy / classifier / result classifier / sleeper raising at each invocation) on "
              "8 execute-style entry points; distinct = (end kind, reason, attempts, failure "
              "sequence)"),
-    "assumptions": ["attempt_timeout_s=None",
+    "assumptions": ["attempt_timeout_s=None except in the attempt-timeout families (owned executor / virtual loop) and in outcome-late-attempt (the library's real threads, event-sequenced; DESIGN 11.8)",
                     "abort at the poll between a failed attempt and its processing: outcome may "
                     "describe that attempt or the last processed failure (DESIGN section 3)",
                     "Policy(retry=None): stop_reason not checked (no retries to stop)"],
@@ -124,6 +124,16 @@ def tasks(tier):
                    loop=e.startswith("Async") or e == "adeco",
                    sleeper_async=e.startswith("Async") or e == "adeco")
         out.append({"family": "outcome-attempt-timeout", "cfg": cfg, "entry": e, "bound": 1})
+    # the sync attempt timeout on the library's REAL threads: the attempt that overran finishes
+    # late (during the backoff sleep, after the next attempt has started, or after the call)
+    late = ["ok", "x:T"] if tier == "quick" else ["ok", "x:T", "r:T"]
+    for M, e in itertools.product([2] if tier == "quick" else [2, 3],
+                                  ["Retry.execute", "Policy.execute", "RetryPolicy.execute"]):
+        cfg = dict(M=M, alphabet=["ok", "x:T"] if tier == "quick" else ["ok", "x:T", "r:T"],
+                   attempt_timeout=1, durs=[0, 10], real_executor=True, late_menu=late,
+                   max_unknown=None, handler="call", handler_menu=["SLEEP"], sleeper="call")
+        out.append({"family": "outcome-late-attempt", "cfg": cfg, "entry": e, "bound": 1,
+                    "selfcheck": 0})
     # the operation returns None and the result classifier rejects None
     for M, e in itertools.product([2, 3], ["Retry.execute", "Policy.execute", "RetryPolicy.execute", "AsyncRetry.execute",
                                            "AsyncPolicy.execute"]):
@@ -158,9 +168,8 @@ def monitor(w, cfg):
 
 def run_plain(cfg, entry, ch):
     full = seq.mkcfg(**cfg)
-    w = seq.World(full, ch)
-    w.call(entry)
-    return w, monitor(w, full)
+    w, judge = run_world(full, entry, ch)
+    return w, (monitor(w, full) if judge else [])
 
 
 def run_task(task, seed):
